@@ -190,7 +190,7 @@ func verifPumpIteration() {
 	}
 	if verifrt.Symbolic() && !returned && !readyAtTop && !verifrt.LoopBlocked() {
 		verifrt.Assert(verifrt.LoopPostBool("flushed"), "not-ready-forces-flush")
-		verifrt.Reach("not-ready-iteration", waiting != nil)
+		verifrt.Reach("sym:not-ready-iteration", waiting != nil)
 	}
 	if verifrt.Symbolic() {
 		verifrt.Reach("sym:iteration-ends-waiting", verifrt.LoopBlocked())
